@@ -443,6 +443,7 @@ Definition dec_op (t : tree) : option rop :=
       if forallb (fun x => okp (fst x)) pcs then Some (MAssign ce pcs) else None
   | T [L 11; m] => m <- dec_msg m ;; Some (Deliver m)
   | T [L 12] => Some Crash
+  | T [L 16] => Some Crash     (* the successor is a live peer that received every broadcast in order: the same model step *)
   | T [L 13; L p; L d] => if okp p then Some (Ahead p d) else None
   | T [L 14; L p] => if okp p then Some (RecCrash p) else None
   | T [L 15; L p; L d] => if okp p then Some (Wild p d) else None
